@@ -203,11 +203,16 @@ inductive Index where
 deriving Repr, BEq, DecidableEq
 
 /-- result of resolving an index against a leading length: positions, whether numpy returns a view,
-    whether the leading axis is dropped (integer index on the ndarray itself). -/
+    whether the leading axis is dropped (integer index on the ndarray itself), whether it is a boolean
+    mask, the number of rows the index *asks for* and whether an integer-list entry is out of bounds
+    (numpy checks the shape of an assigned value before the bounds of a list index). -/
 structure Sel where
   pos : List Nat
   view : Bool
   scalar : Bool
+  mask : Bool := false
+  count : Nat := pos.length
+  oob : Bool := false
 deriving Repr, BEq, DecidableEq
 
 def normInt (n : Nat) (i : Int) : Option Nat :=
@@ -237,15 +242,19 @@ def maskSel (n : Nat) (m : List Bool) : List Nat :=
 
 def resolve (n : Nat) : Index → Except Err Sel
   | .int i => match normInt n i with
-    | some p => .ok ⟨[p], false, true⟩
+    | some p => .ok { pos := [p], view := false, scalar := true }
     | none => .error .index
   | .slice st sp step =>
     let k := step.getD 1
-    if k = 0 then .error .value else .ok ⟨sliceSel n st sp k, true, false⟩
-  | .list l => match l.mapM (normInt n) with
-    | some ps => .ok ⟨ps, false, false⟩
-    | none => .error .index
-  | .mask m => if m.length = n then .ok ⟨maskSel n m, false, false⟩ else .error .index
+    if k = 0 then .error .value else .ok { pos := sliceSel n st sp k, view := true, scalar := false }
+  | .list l =>
+    let ps := l.filterMap (normInt n)
+    .ok { pos := ps, view := false, scalar := false, count := l.length, oob := ps.length != l.length }
+  | .mask m =>
+    -- numpy accepts an empty boolean index on an axis of any length (selects nothing)
+    if m.length = n ∨ m.length = 0 then
+      .ok { pos := maskSel n m, view := false, scalar := false, mask := true }
+    else .error .index
 
 /-- `Atoms.__intslice`. -/
 def intslice (i : Int) : Index :=
@@ -306,6 +315,7 @@ def allocVal (v : Val) : M Arr :=
 
 /-- `arr[index]` for an index that keeps the leading axis: view or copy. -/
 def indexGet (a : Arr) (sel : Sel) : M Arr := fun s =>
+  if sel.oob then (.error .index, s) else
   let idx := sel.pos.map (fun p => a.idx[p]?.getD 0)
   if sel.view then (.ok ⟨a.buf, idx⟩, s)
   else alloc (arrDt s a) (arrTrail s a) (arrRows s ⟨a.buf, idx⟩) s
@@ -317,12 +327,15 @@ def writeRows (rows : List Row) : List (Nat × Row) → List Row
 /-- `arr[sel] = value`: broadcast, cast to the buffer's dtype, write through (later duplicates win). -/
 def assign (a : Arr) (sel : Sel) (v : Val) : M Unit := fun s =>
   let b := s.buf a.buf
-  let k := sel.pos.length
+  let k := sel.count
   let tshape := if sel.scalar then b.trail else k :: b.trail
+  -- element assignment needs a 0-d value; 1-D boolean assignment needs a 0-d or 1-d value
   if sel.scalar ∧ b.trail = [] ∧ v.shape ≠ [] then (.error .value, s) else
+  if sel.mask ∧ b.trail = [] ∧ v.shape.length > 1 then (.error .type, s) else
   match bcast v tshape with
   | none => (.error .value, s)
   | some flat =>
+    if sel.oob then (.error .index, s) else
     match flat.mapM (castCell b.dt) with
     | none => (.error .unmodelled, s)
     | some cells =>
@@ -331,7 +344,7 @@ def assign (a : Arr) (sel : Sel) (v : Val) : M Unit := fun s =>
       let b' : Buf := { b with rows := writeRows b.rows (targets.zip newRows) }
       (.ok (), { s with heap := s.heap.set a.buf b' })
 
-def allSel (n : Nat) : Sel := ⟨List.range n, true, false⟩
+def allSel (n : Nat) : Sel := { pos := List.range n, view := true, scalar := false }
 
 /-! ## `Atoms.PropertyDict.__setitem__` -/
 
@@ -489,6 +502,7 @@ def propGet (o : Nat) (key : String) (ix : Option Index) : M Val := do
   | none => pure (arrVal s a)
   | some ix =>
     let sel ← liftE (resolve a.idx.length ix)
+    if sel.oob then fail .index else
     let sub : Arr := ⟨a.buf, sel.pos.map (fun p => a.idx[p]?.getD 0)⟩
     let v := arrVal s sub
     pure (if sel.scalar then ⟨v.dt, arrTrail s a, v.data⟩ else v)
@@ -543,7 +557,7 @@ def propAtype (o : Nat) (key : String) (v : Val) (t : Option Int) : M Unit := do
     let a ← keyErr ((s'.obj o).find key)
     let ta' ← keyErr ((s'.obj o).find "atype")
     let mask := (arrVal s' ta').data.map (fun c => c.num? == some (t : Rat))
-    assign a ⟨maskSel mask.length mask, false, false⟩ v
+    assign a { pos := maskSel mask.length mask, view := false, scalar := false, mask := true } v
 
 /-- `Atoms.extend`; `donor` is the object passed (or the `Atoms(natoms=n)` just built). -/
 def extendWith (o donor : Nat) : M Nat :=
@@ -567,7 +581,7 @@ def extendWith (o donor : Nat) : M Nat :=
     let s2 ← getS
     forEach (s2.obj nw).props (fun p => do
       let s3 ← getS
-      let sel : Sel := ⟨sliceSel total (some (self.natoms : Int)) none 1, true, false⟩
+      let sel : Sel := { pos := sliceSel total (some (self.natoms : Int)) none 1, view := true, scalar := false }
       match (s3.obj donor).find p.key with
       | some da => assign p.arr sel (arrVal s3 da)
       | none =>
@@ -710,7 +724,7 @@ def sysExtend (offsetDonor : Bool) (i : Nat) (value : Int ⊕ Nat) (scale : Bool
       let v' ← liftE (relToCartVal y.box (arrVal s1 pd))
       let pa ← keyErr ((s1.obj a).find "pos")
       let off : Nat := if offsetDonor then (s1.obj d).natoms else (s1.obj y.atoms).natoms
-      assign pa ⟨sliceSel (s1.obj a).natoms (some (off : Int)) none 1, true, false⟩ v'
+      assign pa { pos := sliceSel (s1.obj a).natoms (some (off : Int)) none 1, view := true, scalar := false } v'
   let j ← mkSys a y.box y.pbc (some syms) none
   pure (a, j)
 
